@@ -45,6 +45,8 @@ first-order output type.
   found, whatever the table;
 * `C03_check_complete`, `C03_check_iff` — program level: `checkProg A P = some (Φ, Ψg, τ)` iff `Φ` is the annotated signature
   list and `WellTypedA A Ψg τ P` (`WellTyped` with annotated derivations, every declaration checked, output first-order);
+* `C03_check_complete_lambda_free_program` — for programs without `lam` (distinct function names) the checker is complete
+  w.r.t. the DECLARATIVE `WellTyped` whose signatures are the annotated ones;
 * `C03_check_agree_decided`, `C03_check_output_first_order` — the side conditions are decided exactly.
 NOT proved here: completeness w.r.t. un-annotated `WellTyped` (a derivation may type two lambdas whose parameters share a
 name differently, or choose signatures the annotations do not name; the inference pre-pass is not verified — it need not be).
@@ -339,6 +341,15 @@ every declaration, a first-order output type); `WellTypedA A Ψg τ P → WellTy
 theorem C03_check_iff {A : Annot} {P : Prog} {Φ : Sig} {Ψg : List Ty} {τ : Ty} :
     checkProg A P = some (Φ, Ψg, τ) ↔ Φ = P.fns.map (sigOf A) ∧ WellTypedA A Ψg τ P := checkProg_iff
 
+/-- **Programs: completeness w.r.t. the declarative `WellTyped`, lambda-free programs.** If a program without `lam`, with
+pairwise distinct function names, is `WellTyped` with the signatures the annotations name and a first-order output type,
+the checker accepts it and returns exactly that typing. (With lambdas the derivation must use the annotated parameter
+types: `C03_check_complete`.) -/
+theorem C03_check_complete_lambda_free_program {A : Annot} {P : Prog} {Ψg : List Ty} {τ : Ty}
+    (h : WellTyped (P.fns.map (sigOf A)) Ψg τ P) (hl : noLamProg P = true)
+    (hn : (P.fns.map (·.name)).Nodup) (hfo : τ.fo = true) :
+    checkProg A P = some (P.fns.map (sigOf A), Ψg, τ) := checkProg_complete_noLam h hl hn hfo
+
 /-- the side condition on site identifiers is decided exactly -/
 theorem C03_check_agree_decided (C : List (Nat × String)) : agreeB C = true ↔ Agree C := agreeB_iff C
 
@@ -349,6 +360,14 @@ example : checkProg exAnnot exProg = some (exSig, [.num], .tup [.num, .num]) := 
 example : WellTyped exSig [.num] (.tup [.num, .num]) exProg := C03_check_sound (A := exAnnot) (by decide)
 example : WellTypedA exAnnot [.num] (.tup [.num, .num]) exProg := (C03_check_iff (Φ := exSig).1 (by decide)).2
 example : sitesUniqueProg exProg = true := by decide
+/-- the hypotheses of `C03_check_complete_lambda_free_program` are satisfiable: `exProg` without its closure -/
+def exNoLam : Prog :=
+  { globals := exProg.globals, fns := exProg.fns,
+    dsp := { name := "dsp", params := ["in"], selfShape := none,
+             body := .letE "t1" (.call "acc" [.var "in"] 1) (.tup [.proj (.var "t1") 0, .var "g0"]) } }
+example : WellTyped (exNoLam.fns.map (sigOf exAnnot)) [.num] (.tup [.num, .num]) exNoLam ∧ noLamProg exNoLam = true ∧
+    (exNoLam.fns.map (·.name)).Nodup ∧ (Ty.tup [.num, .num]).fo = true :=
+  ⟨C03_check_sound (A := exAnnot) (by decide), by decide, by decide, by decide⟩
 /-- a lambda with a function-typed parameter needs its annotation: with it the checker accepts, without it it rejects -/
 def exHO : Prog :=
   { globals := [], fns := [],
@@ -357,6 +376,10 @@ def exHO : Prog :=
                (.app (.var "twice") [.lam ["y"] (.bin .mul (.var "y") (.var "y")), .lit 3]) } }
 example : checkProg ⟨[("f", .fn [.num] .num)], []⟩ exHO = some ([], [], .num) := by decide
 example : checkProg ⟨[], []⟩ exHO = none := by decide
+/-- … so the un-annotated completeness statement `WellTyped Φ Ψg τ P → checkProg A P ≠ none` is FALSE for a fixed table:
+completeness is necessarily relative to the annotations (`C03_check_complete`) or to lambda-free programs -/
+example : WellTyped [] [] .num exHO ∧ checkProg ⟨[], []⟩ exHO = none :=
+  ⟨C03_check_sound (A := ⟨[("f", .fn [.num] .num)], []⟩) (by decide), by decide⟩
 example : inferE [] [] [("t", .tup [.num, .num])] none (.proj (.var "t") 1) = some .num ∧
     noLam (.proj (.var "t") 1) = true := by decide
 example : HasTypeA [] [] [] none (.lam ["q"] (.var "q")) (.fn [.num] .num) := (C03_check_expr_iff ..).1 (by decide)
